@@ -148,6 +148,7 @@ type c17Up struct {
 	UpName     string // fake upstream name (http)
 	URIPath    string // alpha config: path part of the upstream's uri (must not show up in forwarded requests)
 	Dir        string // file upstreams: directory served
+	FileRoot   string // file upstreams: where Dir lies inside the harness's own tree (c17Files), "" or "name/"
 }
 
 type c17Decision struct {
